@@ -232,6 +232,7 @@ PROPS["C19"] = {
 }
 
 PROPS["C18"] = {
+    "timeout": {"quick": 900, "thorough": 3600, "probe": 1500},
     "feature": "c18",
     "tiers": tiers("C18"),
     "mem_gb": 20,
